@@ -213,6 +213,15 @@ func c05Classes(c c05Case, evs []c05Ev) (classes []string, nontriv bool) {
 		if e.Op == "close-ret" {
 			continue
 		}
+		if e.DLDriven {
+			set["timeout:deadline-expired(virtual clock)"] = true
+		}
+		if e.Op == "read" && e.N > 0 && e.VT >= 30*time.Second {
+			set["stream:still-relaying-after-30s"] = true
+		}
+		if e.Op == "read" && e.N > 0 && e.VT >= 2*time.Minute {
+			set["stream:still-relaying-after-2min"] = true
+		}
 		if e.Err == "closed" && e.Op != "close" {
 			set["stopped-by-close:at-"+e.Op] = true
 			continue
@@ -474,6 +483,34 @@ func c05JudgeStreams(evs []c05Ev, done [2]int) (viols []c05Viol, accepted [2]int
 					c05DirName[d], c05ConnName[dst], when)
 				break
 			}
+		}
+	}
+	// stall time-outs (virtual clock): a Read may only run into a deadline that was set after the
+	// last chunk the tunnel relayed - every relayed chunk, in either direction, has to push the read
+	// deadline of BOTH connections forward, otherwise a live one-directional stream is torn down by
+	// the idle direction although no side failed. The deadline must also lie a stall time-out ahead.
+	minTimeout := proxyInitTimeout
+	if proxyStallTimeout < minTimeout {
+		minTimeout = proxyStallTimeout
+	}
+	var lastRelay *c05Ev
+	for i := range evs {
+		e := evs[i]
+		if e.Op == "write" && e.Err == "" && e.N == e.Len && e.Len > 0 {
+			lastRelay = &evs[i]
+		}
+		if !e.DLDriven {
+			continue
+		}
+		if lastRelay != nil && e.DLSetSeq < lastRelay.Seq {
+			add("premature-timeout:deadline-not-refreshed", "%s.Read timed out at virtual time %v on a read deadline that had been set at %v (call seq%d), before the tunnel relayed its last chunk at %v (%s): relayed traffic did not push this connection's read deadline forward, so the idle direction tears down a tunnel that carries a live stream although neither side failed or stalled",
+				c05ConnName[e.Conn], e.VT, e.DLSetVT, e.DLSetSeq, lastRelay.VT, c05Describe(*lastRelay))
+			break
+		}
+		if e.DLVal-e.DLSetVT < minTimeout-time.Second {
+			add("premature-timeout:deadline-too-short", "%s.Read timed out at virtual time %v on a read deadline set at %v that lay only %v ahead (the relay's time-outs are %v / %v)",
+				c05ConnName[e.Conn], e.VT, e.DLSetVT, e.DLVal-e.DLSetVT, proxyInitTimeout, proxyStallTimeout)
+			break
 		}
 	}
 	return
@@ -869,11 +906,12 @@ func c05Replay(t *testing.T, rec *vh.Rec) bool {
 
 // Every single fault, at every position, under every enumeration schedule.
 func TestVerif_C05_single(t *testing.T) {
-	rec := vh.NewRec("C05", "single", "exhaustive: the two halfPipes wired as in Proxy over two scripted connections; base script of 6 chunks per direction (1 B, 700 B, 32767, 32768, 32769, 65536 / 32769, 3, 65536, 1500, 32768, 32767 = 8 Reads each with the 32 KiB buffer) x every single fault {EOF, ECONNRESET, EPIPE, timeout, EIO alone before chunk 0..6; the same five returned together with chunk 0..5; a zero-length read (0, nil) before chunk 0..6; on each of the 8 Writes: short write accepting 0 / 1 / len-1 with nil error, errors with 0 / 300 / len-1 bytes accepted; SetDeadline failing at call 0..9 on source or destination, as seen by either direction; Close failing, or taking 2 ms (lingering), on either connection} x base end {both peers silent (stall time-out), both EOF} x 6 schedules (alternating with 0-3 calls of phase shift, up runs first, down runs first); non-trivial = an injected fault other than a plain EOF alone was hit; distinct by case")
+	rec := vh.NewRec("C05", "single", "exhaustive: the two halfPipes wired as in Proxy over two scripted connections; base script of 6 chunks per direction (1 B, 700 B, 32767, 32768, 32769, 65536 / 32769, 3, 65536, 1500, 32768, 32767 = 8 Reads each with the 32 KiB buffer) x every single fault {EOF, ECONNRESET, EPIPE, timeout, EIO alone before chunk 0..6; the same five returned together with chunk 0..5; a zero-length read (0, nil) before chunk 0..6; on each of the 8 Writes: short write accepting 0 / 1 / len-1 with nil error, errors with 0 / 300 / len-1 bytes accepted; SetDeadline failing at call 0..9 on source or destination, as seen by either direction; Close failing, or taking 2 ms (lingering), on either connection} x base end {both peers silent (stall time-out), both EOF} x 6 schedules (alternating with 0-3 calls of phase shift, up runs first, down runs first); plus 144 one-directional streams in virtual time: {down, up} relays 8 chunks, the first after {0, 20 s}, then every {20 s, 100 s, 130 s (a real stall)}, ends with EOF, while the other side is {silent from the start, sends one request at t=0 and waits} x the 6 schedules - the virtual clock advances only when every direction is blocked in a Read, to the next chunk arrival or read-deadline expiry; non-trivial = an injected fault other than a plain EOF alone was hit; distinct by case")
 	defer rec.Flush()
 	rec.Require("read:data+eof", "read:data+reset", "read:data+timeout", "read:reset", "read:epipe", "read:timeout", "read:eof", "read:zero-length", "close:slow",
 		"write:short", "write:err+partial", "write:err", "write:epipe", "write:timeout", "setdl:first", "setdl:nth", "close:err",
-		"stopped-by-close:at-read", "stopped-by-close:at-write", "stopped-by-close:at-setdl", "chunk:1B", "chunk:=32KiB", "chunk:>32KiB(split)")
+		"stopped-by-close:at-read", "stopped-by-close:at-write", "stopped-by-close:at-setdl", "chunk:1B", "chunk:=32KiB", "chunk:>32KiB(split)",
+		"timeout:deadline-expired(virtual clock)", "stream:still-relaying-after-30s", "stream:still-relaying-after-2min")
 	c05QuietStats(t)
 	if c05Replay(t, rec) {
 		return
@@ -901,6 +939,49 @@ func TestVerif_C05_single(t *testing.T) {
 			}
 		}
 	}
+	for _, c := range c05StreamCases() {
+		idx++
+		if vh.Mine(idx) {
+			c05Check(t, rec, c)
+		}
+	}
+}
+
+// c05StreamCases: long one-directional streams in virtual time. One direction relays 8 chunks with
+// pauses between them and ends with EOF, the other side is silent from the start ("server speaks
+// first" / upload to a quiet server) or sends one small request at t=0 and then waits (download).
+func c05StreamCases() []c05Case {
+	var out []c05Case
+	for _, dir := range []int{c05Down, c05Up} {
+		for _, opener := range []string{"silent", "request-first"} {
+			for _, p0 := range []int64{0, 20000} {
+				for _, p := range []int64{20000, 100000, 130000} {
+					for _, sc := range c05Scheds {
+						stream := c05Script{End: "eof"}
+						for i := 0; i < 8; i++ {
+							st := c05Step{N: 1448, PauseMs: p}
+							if i == 0 {
+								st.PauseMs = p0
+							}
+							if i == 5 {
+								st.N = 40000
+							}
+							stream.Reads = append(stream.Reads, st)
+						}
+						idle := c05Script{End: "hold"}
+						if opener == "request-first" {
+							idle.Reads = []c05Step{{N: 300}}
+						}
+						c := c05Case{Sched: sc, Label: fmt.Sprintf("one-directional stream %s: first chunk after %d s, then every %d s; the other side: %s", c05DirName[dir], p0/1000, p/1000, opener)}
+						*c.script(dir) = stream
+						*c.script(1 - dir) = idle
+						out = append(out, c)
+					}
+				}
+			}
+		}
+	}
+	return out
 }
 
 // Pairs of faults: sampled in the quick tier, exhaustive in the thorough tier.
@@ -967,6 +1048,9 @@ func c05GenScript(rt *rapid.T, name string, dirs []int) c05Script {
 		} else if rapid.IntRange(0, 9).Draw(rt, name+".zero") == 0 {
 			st.N = 0 // a zero-length read without error
 		}
+		if rapid.IntRange(0, 3).Draw(rt, name+".paused") == 0 {
+			st.PauseMs = rapid.SampledFrom([]int64{1000, 10000, 29000, 31000, 60000, 119000, 121000, 300000}).Draw(rt, name+".pause")
+		}
 		s.Reads = append(s.Reads, st)
 	}
 	s.End = rapid.SampledFrom([]string{"hold", "hold", "eof", "eof", "reset", "timeout", "epipe", "eio"}).Draw(rt, name+".end")
@@ -1013,9 +1097,10 @@ func c05Gen(rt *rapid.T) c05Case {
 }
 
 func TestVerif_C05_random(t *testing.T) {
-	rec := vh.NewRec("C05", "random", "rapid-drawn scripts for both connections: 0-8 read steps (chunks of 1 B .. 100000 B, biased to the 32 KiB buffer boundary, or with probability ~1/11 a zero-length read without error), each chunk with probability 1/8 returned together with an error {EOF, reset, EPIPE, time-out, EIO, unexpected EOF, ETIMEDOUT, ECONNABORTED}, end {silent, EOF, reset, time-out, EPIPE, EIO}, 0-2 write faults (call 0-12, accepted count 0/1/len-1/len-2/100/16384/32767/all, nil error or reset/EPIPE/time-out/EIO/ENOBUFS), optional SetDeadline fault (either direction, call 0-10), optional Close error, optional lingering Close (1-3 ms); schedule: 1/3 real concurrency, 2/3 a drawn 0-48 step turn schedule then alternating; non-trivial = an injected fault other than a plain EOF alone was hit; distinct by case")
+	rec := vh.NewRec("C05", "random", "rapid-drawn scripts for both connections: 0-8 read steps (chunks of 1 B .. 100000 B, biased to the 32 KiB buffer boundary, or with probability ~1/11 a zero-length read without error), each step with probability 1/4 arriving only after a virtual pause of 1 s .. 5 min (around the relay's 30 s / 2 min time-outs), each chunk with probability 1/8 returned together with an error {EOF, reset, EPIPE, time-out, EIO, unexpected EOF, ETIMEDOUT, ECONNABORTED}, end {silent, EOF, reset, time-out, EPIPE, EIO}, 0-2 write faults (call 0-12, accepted count 0/1/len-1/len-2/100/16384/32767/all, nil error or reset/EPIPE/time-out/EIO/ENOBUFS), optional SetDeadline fault (either direction, call 0-10), optional Close error, optional lingering Close (1-3 ms); schedule: 1/3 real concurrency, 2/3 a drawn 0-48 step turn schedule then alternating; non-trivial = an injected fault other than a plain EOF alone was hit; distinct by case")
 	defer rec.Flush()
-	rec.Require("read:data+eof", "read:zero-length", "write:short", "write:err+partial", "setdl:first", "setdl:nth", "close:err", "close:slow", "sched:free", "sched:controlled", "stopped-by-close:at-write")
+	rec.Require("read:data+eof", "read:zero-length", "write:short", "write:err+partial", "setdl:first", "setdl:nth", "close:err", "close:slow", "sched:free", "sched:controlled", "stopped-by-close:at-write",
+		"timeout:deadline-expired(virtual clock)", "stream:still-relaying-after-30s", "stream:still-relaying-after-2min")
 	c05QuietStats(t)
 	if c05Replay(t, rec) {
 		return
